@@ -18,6 +18,7 @@ func VerifC05dec() {
 	c, g1, g2 := verifGenClaims()
 	verifGenNilElems = false
 	asJSON := ndParam("json", 0) == 1
+	verifJSONNullSw = true
 	buf := verifDecodeInput(c, g1, g2, asJSON)
 	var dec IClaims
 	var err error
